@@ -412,6 +412,8 @@ def cvc5_check(solver: z3.Solver, timeout_ms: int) -> str:
         return "unknown"
     if "fp." in txt and "RoundingMode" in txt and len(txt) > 200000:
         return "unknown"
+    for n in set(re.findall(r"define-funs-rec\s*\(\s*\(\s*([^\s()]+)", txt)) | set(re.findall(r"define-fun-rec\s+([^\s()]+)", txt)):
+        txt = txt.replace(f"(_ {n} 0)", n)          # z3 5.x's printed form of a recursive-function application (see second_opinion)
     with tempfile.NamedTemporaryFile("w", suffix=".smt2", delete=False) as f:
         f.write("(set-logic ALL)\n" + txt)
         path = f.name
@@ -431,6 +433,13 @@ def second_opinion(solver: z3.Solver, timeout_ms: int) -> str:
         txt = solver.to_smt2()
     except Exception:
         return "unknown (no export)"
+    # z3 5.x prints applications of recursive functions as `(_ f 0)`: cvc5 rejects that form and z3 4.8.12 reads it as another,
+    # undefined symbol (a spurious `sat`). Normalised to plain `f`. z3 4.8.12 also answers `sat` on unsatisfiable queries whose
+    # refutation needs an unfolding of a recursive definition (observed: fitness_sum(k + 1) with the definition in scope; the model it
+    # prints violates the definition), so queries with recursive definitions are re-checked by cvc5 only.
+    rec_names = set(re.findall(r"define-funs-rec\s*\(\s*\(\s*([^\s()]+)", txt)) | set(re.findall(r"define-fun-rec\s+([^\s()]+)", txt))
+    for n in rec_names:
+        txt = txt.replace(f"(_ {n} 0)", n)
     with tempfile.NamedTemporaryFile("w", suffix=".smt2", delete=False) as f:
         f.write(txt)
         path = f.name
@@ -438,8 +447,10 @@ def second_opinion(solver: z3.Solver, timeout_ms: int) -> str:
         f.write("(set-logic ALL)\n" + txt)
         path5 = f.name
     try:
-        for nm, cmd in (("cvc5", ["/usr/bin/cvc5", "--strings-exp", f"--tlimit={timeout_ms}", path5]),
-                        ("z3-4.8.12", ["/usr/bin/z3", f"-T:{max(1, timeout_ms // 1000)}", path])):
+        backends = [("cvc5", ["/usr/bin/cvc5", "--strings-exp", f"--tlimit={timeout_ms}", path5])]
+        if not rec_names:
+            backends.append(("z3-4.8.12", ["/usr/bin/z3", f"-T:{max(1, timeout_ms // 1000)}", path]))
+        for nm, cmd in backends:
             try:
                 out = subprocess.run(cmd, capture_output=True, text=True, timeout=timeout_ms / 1000 + 5)
                 first = out.stdout.strip().splitlines()[0] if out.stdout.strip() else "unknown"
